@@ -43,7 +43,7 @@ package protocol
 //@   allocates
 //@   ensures extends(r, dst) && spareOnly(dst)
 //@   ensures len(src) > 0 && old(src[0]) != '%' ==> len(r) > len(dst) && r[len(dst)] == old(src[0])
-//@   requires @C17 qok ==> isPathEncoding(src) && !sameArray(dst, src)
+//@   requires @C17 qok ==> isPathEncoding(src) && !mayAlias(dst, src)
 //@   ghostset-at-entry qk = 0
 //@   ghostset after append#2: qk = qk + 1
 //@   ghostset after append#3: qk = qk + 1
@@ -117,7 +117,7 @@ package protocol
 //@   replay-import github.com/cloudwego/hertz/internal/bytesconv
 //@   replay-go al := []byte{'%', '+', ' ', 'A', '0', '/', 0xff, 0, '&', '=', 'a', 'G'}; var rec func(x []byte, d int); rec = func(x []byte, d int) { e := bytesconv.AppendQuotedArg(nil, x); r := decodeArgAppend(nil, e); if !bytes.Equal(r, x) { fmt.Printf("VCGO-VIOLATED decodeArgAppend(AppendQuotedArg(%q)=%q) = %q\n", x, e, r); panic("stop") }; if d == 0 { return }; for _, c := range al { rec(append(append([]byte{}, x...), c), d-1) } }; rec(nil, 4)
 //@   allocates
-//@   requires @C17 qok ==> isArgEncoding(src) && !sameArray(dst, src)
+//@   requires @C17 qok ==> isArgEncoding(src) && !mayAlias(dst, src)
 //@   ghostset-at-entry qk = 0
 //@   ghostset after append#2: qk = qk + 1
 //@   ghostset after append#3: qk = qk + 1
